@@ -221,16 +221,17 @@ def huge_case(ctx, rng):
 
     sym = rng.choice(["U1", "U1", "Z4", "U1U1", "Z2Z2", "Z2"])
     if sym == "U1":
-        nleg, mk = rng.randint(7, 8), (lambda: list(range(-rng.randint(2, 3), rng.randint(2, 3) + 1)))
+        nleg, mk = rng.randint(7, 8), (lambda: list(range(-3, 4)) if rng.random() < 0.8 else list(range(-2, 3)))
     elif sym == "Z4":
-        nleg, mk = rng.randint(9, 10), (lambda: [0, 1, 2, 3])
+        nleg, mk = rng.randint(10, 11), (lambda: [0, 1, 2, 3])
     elif sym == "U1U1":
-        nleg, mk = 6, (lambda: [(a, b) for a in range(-1, 2) for b in range(-1, 2)])
+        box = [(a, b) for a in range(-1, 2) for b in range(-1, 2)]
+        nleg, mk = 7, (lambda: rng.sample(box, 7))
     elif sym == "Z2Z2":
-        nleg, mk = rng.randint(9, 10), (lambda: [(0, 0), (0, 1), (1, 0), (1, 1)])
+        nleg, mk = rng.randint(10, 11), (lambda: [(0, 0), (0, 1), (1, 0), (1, 1)])
     else:
-        nleg, mk = rng.randint(17, 18), (lambda: [0, 1])
-    css = [mk() for _ in range(nleg)]
+        nleg, mk = rng.randint(18, 19), (lambda: [0, 1])
+    css = [sorted(mk()) for _ in range(nleg)]
     duals = [rng.random() < 0.5 for _ in range(nleg)]
     ncand = 1
     for cs in css:
@@ -281,7 +282,37 @@ def _judge(ctx, what, got, expect, desc):
         ctx.violation(mech, f"{what} {desc}: missing sectors {sorted(es - gs, key=repr)} (got {sorted(gs, key=repr)})", desc)
 
 
+def nonbool_flags_first(ctx, sym):
+    """Runs FIRST in every fresh worker process, before any call with a proper bool: the
+    direction flag of `sign` given as 1 / 0 / numpy bools / numpy ints (what callers hold when
+    directions come from a list of ints or a numpy array). Negation must not depend on how the
+    truth value is spelled, and must not poison what later calls with real bools return."""
+    import numpy as np
+
+    S = ctx.sr.get_symmetry(sym)
+    ident = S.combine()
+    for a in ELEMS[sym][:: max(1, len(ELEMS[sym]) // 40)]:
+        for flag, truth in ((1, True), (np.True_, True), (np.int64(1), True), (0, False), (np.False_, False)):
+            ctx.evaluated()
+            ctx.count("axioms", "nonbool-direction-flag")
+            try:
+                got = S.sign(a, flag)
+            except Exception as e:
+                ctx.violation(f"sign-raises-{type(e).__name__}", f"{sym}: sign({a!r}, {flag!r}) raised {e!r}", {"symmetry": sym})
+                continue
+            want = R.neg(sym, a) if truth else a
+            if got != want:
+                ctx.violation("negation-depends-on-flag-spelling", f"{sym}: sign({a!r}, {flag!r}) = {got!r}, expected {want!r} (flag is {'true' if truth else 'false'})", {"symmetry": sym})
+                return
+        if S.sign(a, True) != R.neg(sym, a) or S.combine(a, S.sign(a, True)) != ident:
+            ctx.violation("negation-value", f"{sym}: after calls with non-bool flags, sign({a!r}, True) = {S.sign(a, True)!r}", {"symmetry": sym})
+            return
+
+
 def run(ctx):
+    for sym in R.SYMS:
+        if ctx.want(f"nonbool-{sym}", 0):
+            ctx.run_case(nonbool_flags_first, ctx, sym)
     for sym in R.SYMS:
         if ctx.want(f"axioms-{sym}", 0):
             ctx.run_case(axioms, ctx, sym)
